@@ -1,8 +1,8 @@
 (* C09 — Conversions, reversal, copies and edge-list constructors keep edges and labels.  Statements only; proofs in ConvProofs.v.
    Proved (every label type): reversal, double reversal and the edge-list constructor of the directed labelled model (ConvProofs.v);
    getDirectedGraph, undirected-from-directed and their round trip (UFoldProofs.v, UConvProofs.v).
-   PARTIAL: the edge-list constructors of the other seven classes and copy/assignment are tied to the implementation and to the spec
-   images by the correspondence check only. *)
+   the edge-list constructors of the undirected labelled class, both multigraphs and both weighted graphs (CtorProofs.v).
+   PARTIAL only in that copy construction / assignment are identities in a model of immutable values (exercised on the implementation). *)
 From BG Require Import Base DirectedModel DirectedProofs UndirectedModel UndirectedProofs Equality ConvProofs UFoldProofs UConvProofs.
 
 (* getReversedGraph of any graph satisfying the invariant (zero vertices and isolated vertices included) is defined, has the same size,
@@ -66,3 +66,68 @@ Theorem C09_undirected_round_trip : forall (L : Type) (leqb : L -> L -> bool) (l
   exists d u, to_directed ldef hs repaired true g = Val d /\ of_directed ldef hs repaired d = Val u /\ graph_eqb leqb u g = Val true.
 Proof. intros L leqb ldef hs g. exact (undirected_round_trip leqb ldef hs g). Qed.
 Print Assumptions C09_undirected_round_trip.
+
+(* ---- edge-list constructors of the other classes, for EVERY list (lmax es = 1 + largest index, 0 for the empty list):
+   undirected labelled: {i,j} present iff some entry names it in either orientation, label of the first such entry;
+   multigraphs (multiplicities >= 0): multiplicity of a pair = SUM over the entries naming it (an entry with multiplicity 0 adds no edge but
+   counts for the size), total = sum of all multiplicities; weighted: weight of the first entry naming the pair (addEdge on a present edge is a
+   no-op), total = sum over distinct pairs ---- *)
+From Coq Require Import List Arith ZArith.
+From BG Require Import MultiModel WeightedModel MultiSpec Totals UTotals ConvModel UFoldProofs CtorProofs.
+Theorem C09_undirected_edge_list_constructor :
+  forall (L : Type) (has_store : bool) (es : list (nat * nat * L)),
+        exists g : (@dgraph L),
+          u_of_edge_list has_store repaired es = Val g /\
+          InvU has_store g /\
+          KeysOK g /\
+          size g = lmax es /\
+          (forall i j : nat, In j (nb g i) <-> (exists l : L, In (i, j, l) es \/ In (j, i, l) es)) /\
+          (has_store = true -> forall e : edge, lfind e (labels g) = ufirst e es) /\
+          (has_store = true -> forall i j : nat, lfind (ordered i j) (labels g) = ufirst (ordered i j) es).
+Proof. intros L. exact (@CtorProofs.u_of_edge_list_spec L). Qed.
+Print Assumptions C09_undirected_edge_list_constructor.
+Theorem C09_multigraph_edge_list_constructor :
+  forall es : list (nat * nat * Z),
+        (forall x : (nat * nat * Z), In x es -> (0 <= snd x)%Z) ->
+        exists m : mgraph,
+          dm_of_edge_list repaired es = Val m /\
+          TInv m /\
+          size (mg m) = lmax es /\
+          (forall i j : nat, lget (i, j) (labels (mg m)) = mult_sum false (i, j) es) /\
+          (forall i j : nat, In j (nb (mg m) i) <-> (0 < mult_sum false (i, j) es)%Z) /\
+          (forall i j : nat, i < lmax es -> j < lmax es -> dm_get_multiplicity m i j = Val (mult_sum false (i, j) es)) /\ mtot m = mult_total es.
+Proof. exact CtorProofs.dm_of_edge_list_spec. Qed.
+Print Assumptions C09_multigraph_edge_list_constructor.
+Theorem C09_undirected_multigraph_edge_list_constructor :
+  forall es : list (nat * nat * Z),
+        (forall x : (nat * nat * Z), In x es -> (0 <= snd x)%Z) ->
+        exists m : mgraph,
+          um_of_edge_list repaired es = Val m /\
+          UTInv m /\
+          size (mg m) = lmax es /\
+          (forall i j : nat, lget (ordered i j) (labels (mg m)) = mult_sum true (ordered i j) es) /\
+          (forall i j : nat, In j (nb (mg m) i) <-> (0 < mult_sum true (ordered i j) es)%Z) /\
+          (forall i j : nat, i < lmax es -> j < lmax es -> um_get_multiplicity m i j = Val (mult_sum true (ordered i j) es)) /\ mtot m = mult_total es.
+Proof. exact CtorProofs.um_of_edge_list_spec. Qed.
+Print Assumptions C09_undirected_multigraph_edge_list_constructor.
+Theorem C09_weighted_edge_list_constructor :
+  forall es : list (nat * nat * Z),
+        exists m : mgraph,
+          dw_of_edge_list repaired es = Val m /\
+          TInv m /\
+          size (mg m) = lmax es /\
+          (forall i j : nat, lfind (i, j) (labels (mg m)) = first_label i j es) /\
+          (forall i j : nat, In j (nb (mg m) i) <-> (exists w : Z, In (i, j, w) es)) /\ mtot m = wtotal false es.
+Proof. exact CtorProofs.dw_of_edge_list_spec. Qed.
+Print Assumptions C09_weighted_edge_list_constructor.
+Theorem C09_undirected_weighted_edge_list_constructor :
+  forall es : list (nat * nat * Z),
+        exists m : mgraph,
+          uw_of_edge_list repaired es = Val m /\
+          UTInv m /\
+          size (mg m) = lmax es /\
+          (forall e : edge, lfind e (labels (mg m)) = ufirst e es) /\
+          (forall i j : nat, lfind (ordered i j) (labels (mg m)) = ufirst (ordered i j) es) /\
+          (forall i j : nat, In j (nb (mg m) i) <-> (exists w : Z, In (i, j, w) es \/ In (j, i, w) es)) /\ mtot m = wtotal true es.
+Proof. exact CtorProofs.uw_of_edge_list_spec. Qed.
+Print Assumptions C09_undirected_weighted_edge_list_constructor.
